@@ -23,7 +23,8 @@ RULE = (
     "(pattern names, the unnamed symbol, a symbol 'X' used nowhere else). (3) Real combinations, enumerated completely: "
     "every distinct LEVEL_SEQUENCE_RESTRICTIONS regex x the generic pattern 'sequence_header .* end_of_sequence' x "
     "{no extra pattern, each pattern the test-case generators pass to make_sequence, the documentation example} x picture "
-    "lists of 0..4 pictures (low-delay / high-quality, whole pictures or groups of 2 or 3 fragments), called as "
+    "lists of 0..4 pictures (low-delay / high-quality, whole pictures or groups of 2 or 3 fragments; quick: 0..2 pictures, "
+    "groups of 2 fragments), called as "
     "encoder.sequence.make_sequence calls it (symbol_priority=[padding_data, sequence_header], default depth_limit). "
     "Oracle: breadth-first reference search over (required symbols consumed, current run of insertions, one position-"
     "automaton state per pattern) for the minimum length of a supersequence with <= depth_limit consecutive insertions "
@@ -36,7 +37,8 @@ RULE = (
     "exists, but none in G' carry sig D4-not-shortest / D4-false-impossible, everything else is a violation. "
     "Cases whose greedy search tree (counted by the reference) exceeds 2500 nodes are skipped and counted "
     "(label skipped:library_search_too_large) because the library deep-copies every matcher per node; a library call that "
-    "nevertheless burns more than 20 s CPU is cut off and reported (hang protection). "
+    "nevertheless burns more than 30 s of CPU is cut off, counted (skipped:library_call_cut_off_after_cpu_limit) and "
+    "not judged (hang protection, never a verdict). "
     "Non-trivial = the reference minimum needs at least one inserted symbol, or there are >= 2 patterns and >= 1 required "
     "symbol; distinct by (required, pattern texts, depth_limit, symbol_priority)."
 )
@@ -54,7 +56,7 @@ ASSUMPTIONS = [
 ]
 
 NODE_LIMIT = 2500
-LIBRARY_CPU_LIMIT = 20   # seconds of CPU time for one library call (hang protection)
+LIBRARY_CPU_LIMIT = 30   # seconds of CPU time for one library call (hang protection)
 
 
 def EXHAUSTIVE(tier):
@@ -230,14 +232,9 @@ def judge_case(make_matching_sequence, Impossible, required, texts, trees, depth
     except Impossible:
         raised = True
     except R.ReTimeout:
-        # hang protection only: the unchanged library needs well under a second for a case of this size
-        col.fail("no-answer-within-cpu-limit", data,
-                 "make_matching_sequence used more than %d s CPU for %r although the greedy search tree has at most %d "
-                 "nodes" % (LIBRARY_CPU_LIMIT, data, NODE_LIMIT))
-        return labels + ["outcome:VIOLATION"], False, None
-    except Exception as e:
-        col.fail(col.crash_bucket(e), data, "make_matching_sequence raised %s: %r for %r" % (type(e).__name__, e, data))
-        return labels + ["outcome:crash"], False, None
+        # hang protection only, never a verdict (CPU time is not part of the property and the machine may be
+        # oversubscribed): the case is counted and dropped
+        return ["skipped:library_call_cut_off_after_cpu_limit"], False, None
 
     nontrivial = (best is not None and best > len(required)) or (len(trees) >= 2 and len(required) >= 1)
     if best is not None:
@@ -393,20 +390,20 @@ def thinned_joint_word(trees, scheme, picks, depth):
     return required
 
 
-def picture_lists():
+def picture_lists(max_pictures=4, fragment_counts=(2, 3)):
     out = []
     for kind in ("low_delay_picture", "high_quality_picture"):
-        for count in range(0, 5):
+        for count in range(0, max_pictures + 1):
             if count == 0 and kind != "low_delay_picture":
                 continue
             out.append(("%d x %s" % (count, kind), [kind] * count))
-        for frags in (2, 3):
-            for count in range(1, 5):
+        for frags in fragment_counts:
+            for count in range(1, max_pictures + 1):
                 out.append(("%d x %d %s_fragment" % (count, frags, kind), [kind + "_fragment"] * (frags * count)))
     return out
 
 
-def real_cases():
+def real_cases(max_pictures=4, fragment_counts=(2, 3)):
     """[(description, required, [pattern texts])] enumerated completely."""
     pats = P18.real_patterns()
     levels = [(o, t) for o, t in pats if o.startswith("level")]
@@ -416,7 +413,7 @@ def real_cases():
     out = []
     for lo, lt in levels:
         for e in extras:
-            for pd, pl in picture_lists():
+            for pd, pl in picture_lists(max_pictures, fragment_counts):
                 texts = ["sequence_header .* end_of_sequence", lt] + ([e[1]] if e else [])
                 out.append(("%s, %s, %s" % (lo, e[0] if e else "no extra pattern", pd), pl, texts))
     return out
@@ -463,7 +460,7 @@ def run_shard(spec, ctx):
                                 "symbol_priority": prio}, may_sample=(k == 0 and len(req) == 2 and depth == 2))
         col.exhaustive = complete   # False only when a --budget deadline cut the enumeration short
     elif kind == "real":
-        cases = real_cases()
+        cases = real_cases(*ctx.pick((2, (2,)), (4, (2, 3))))
         prio = ["padding_data", "sequence_header"]
         for i, (desc, req, texts) in enumerate(cases):
             if i % n != k:
@@ -496,7 +493,7 @@ def run_shard(spec, ctx):
                    {"part": "generated", "required": list(required), "patterns": texts, "depth_limit": depth,
                     "symbol_priority": prio})
 
-        run_given(generated_cases(), body, ctx, ctx.pick(400, 8000))
+        run_given(generated_cases(), body, ctx, ctx.pick(120, 6000))
 
 
 def replay(data, col):
